@@ -2,6 +2,7 @@ package interpreter
 
 import (
 	"fmt"
+	"sync"
 
 	. "github.com/glyphlang/glyph/pkg/ast"
 	"github.com/glyphlang/glyph/pkg/httpclient"
@@ -9,12 +10,17 @@ import (
 
 // defaultHTTPHandler is a shared HTTP client handler for built-in http.* functions.
 // It is lazily initialized on first use so there is no cost when HTTP builtins are unused.
-var defaultHTTPHandler *httpclient.Handler
+var (
+	defaultHTTPHandler     *httpclient.Handler
+	defaultHTTPHandlerOnce sync.Once
+)
 
+// getDefaultHTTPHandler is called from concurrent requests, so the lazy
+// initialisation must not be a plain check-and-assign.
 func getDefaultHTTPHandler() *httpclient.Handler {
-	if defaultHTTPHandler == nil {
+	defaultHTTPHandlerOnce.Do(func() {
 		defaultHTTPHandler = httpclient.NewHandler()
-	}
+	})
 	return defaultHTTPHandler
 }
 
